@@ -218,10 +218,16 @@ fn cells() -> Vec<PlCase> {
                 };
                 for tl in around {
                     for th in around {
-                        for tm in ["join", "leave", "invite", "none"] {
+                        for tm in ["join", "leave", "invite", "none", "knock"] {
+                            if tm == "knock" && v < 7 {
+                                continue;
+                            }
                             out.push(PlCase { version: v, content: with(base(tl), "ban", th), action: "ban".into(), target_membership: tm.into(), probe_type: String::new(), actor_is_target: false, actor_is_creator: false, target_is_creator: false });
                         }
-                        for tm in ["join", "invite"] {
+                        for tm in ["join", "invite", "knock"] {
+                            if tm == "knock" && v < 7 {
+                                continue;
+                            }
                             out.push(PlCase { version: v, content: with(base(tl), "kick", th), action: "kick".into(), target_membership: tm.into(), probe_type: String::new(), actor_is_target: false, actor_is_creator: false, target_is_creator: false });
                         }
                         for th2 in around {
@@ -231,7 +237,10 @@ fn cells() -> Vec<PlCase> {
                     out.push(PlCase { version: v, content: base(tl), action: "ban".into(), target_membership: "join".into(), probe_type: String::new(), actor_is_target: true, actor_is_creator: false, target_is_creator: false });
                 }
                 for th in around {
-                    for tm in ["none", "leave"] {
+                    for tm in ["none", "leave", "invite", "knock"] {
+                        if tm == "knock" && v < 7 {
+                            continue;
+                        }
                         out.push(PlCase { version: v, content: with(base(None), "invite", th), action: "invite".into(), target_membership: tm.into(), probe_type: String::new(), actor_is_target: false, actor_is_creator: false, target_is_creator: false });
                     }
                     for entry in around {
@@ -366,7 +375,7 @@ fn random_case() -> impl Strategy<Value = PlCase> {
                 "ban" => ["join", "leave", "invite", "none"][tm as usize % 4],
                 "kick" => ["join", "invite"][tm as usize % 2],
                 "unban" => "ban",
-                "invite" => ["none", "leave"][tm as usize % 2],
+                "invite" => ["none", "leave", "invite", if version >= 7 { "knock" } else { "leave" }][tm as usize % 4],
                 _ => "",
             };
             let probe_type = match action {
